@@ -372,7 +372,11 @@ func (s *Service) dispatch(response map[string]map[string]any, client *ClientSer
 			logger.Debug(s.clients)
 			for _, c := range s.clients {
 
-				if channel, ok := c.Responses[RandID]; ok {
+				c.ResponsesMtx.Lock()
+				channel, ok := c.Responses[RandID]
+				c.ResponsesMtx.Unlock()
+
+				if ok {
 
 					if val, ok := response["Body"]["Response"]; ok {
 						var (
@@ -698,7 +702,11 @@ func (s *Service) dispatch(response map[string]map[string]any, client *ClientSer
 				return
 			}
 
-			if channel, ok := client.Responses[RequestID]; ok {
+			client.ResponsesMtx.Lock()
+			channel, ok := client.Responses[RequestID]
+			client.ResponsesMtx.Unlock()
+
+			if ok {
 				channel <- Response
 			} else {
 				logger.Debug("[BodyListenerTransmit] Failed to retrieve response channel")
